@@ -248,14 +248,22 @@ pub fn c11_render(n: usize, mask: u64, i: usize, dup: bool) -> String {
 /// 3 a comment and a processing instruction between the imports; 4 imports written as non-empty elements that carry their own
 /// annotation; 5 attribute order schemaLocation, namespace; 6 an annotation after every import.
 pub fn c11_render_layout(n: usize, mask: u64, i: usize, dup: bool, layout: u64) -> String {
+    let ident: Vec<usize> = (0..n).collect();
+    c11_render_full(n, mask, i, dup, layout, &ident)
+}
+
+/// `ns_of[i]` = index of the namespace URI of file i: files may share one target namespace (a namespace spread over several
+/// files that import each other by `namespace` + `schemaLocation`).
+pub fn c11_render_full(n: usize, mask: u64, i: usize, dup: bool, layout: u64, ns_of: &[usize]) -> String {
+    let uri = |k: usize| C11_URIS[ns_of.get(k).copied().unwrap_or(k) % C11_URIS.len()];
     let mut s = String::new();
     s.push_str(&format!(
         "<?xml version=\"1.0\"?>\n<xs:schema xmlns:xs=\"http://www.w3.org/2001/XMLSchema\" targetNamespace=\"{}\" elementFormDefault=\"qualified\" xmlns:own=\"{}\"",
-        C11_URIS[i], C11_URIS[i]
+        uri(i), uri(i)
     ));
     for j in 0..n {
         if mask >> (i * n + j) & 1 == 1 && j != i {
-            s.push_str(&format!(" xmlns:p{j}=\"{}\"", C11_URIS[j]));
+            s.push_str(&format!(" xmlns:p{j}=\"{}\"", uri(j)));
         }
     }
     s.push_str(">\n");
@@ -271,10 +279,10 @@ pub fn c11_render_layout(n: usize, mask: u64, i: usize, dup: bool, layout: u64) 
                 match layout {
                     4 => s.push_str(&format!(
                         "  <xs:import namespace=\"{}\" schemaLocation=\"f{j}.xsd\">\n    <xs:annotation><xs:documentation>why</xs:documentation></xs:annotation>\n  </xs:import>\n",
-                        C11_URIS[j]
+                        uri(j)
                     )),
-                    5 => s.push_str(&format!("  <xs:import schemaLocation=\"f{j}.xsd\" namespace=\"{}\"/>\n", C11_URIS[j])),
-                    _ => s.push_str(&format!("  <xs:import namespace=\"{}\" schemaLocation=\"f{j}.xsd\"/>\n", C11_URIS[j])),
+                    5 => s.push_str(&format!("  <xs:import schemaLocation=\"f{j}.xsd\" namespace=\"{}\"/>\n", uri(j))),
+                    _ => s.push_str(&format!("  <xs:import namespace=\"{}\" schemaLocation=\"f{j}.xsd\"/>\n", uri(j))),
                 }
                 written += 1;
                 if (layout == 2 && written == 1) || layout == 6 {
@@ -317,7 +325,13 @@ fn run_c11(job: &Value) -> Value {
         }
         let content = match job["replace"].get(i.to_string()).and_then(Value::as_str) {
             Some(c) => c.to_string(),
-            None => c11_render_layout(n, mask, i, dup, job["layout"].as_u64().unwrap_or(0)),
+            None => {
+                let ns_of: Vec<usize> = match job["ns_of"].as_array() {
+                    Some(a) => a.iter().map(|v| v.as_u64().unwrap_or(0) as usize).collect(),
+                    None => (0..n).collect(),
+                };
+                c11_render_full(n, mask, i, dup, job["layout"].as_u64().unwrap_or(0), &ns_of)
+            }
         };
         files.insert(format!("f{i}.xsd"), json!(content));
     }
@@ -530,8 +544,14 @@ fn main() {
             // debugging aid: print the files of one graph
             let n: usize = args[2].parse().unwrap();
             let mask: u64 = args[3].parse().unwrap();
+            // optional: layout number, comma-separated namespace index per file
+            let layout: u64 = args.get(4).and_then(|a| a.parse().ok()).unwrap_or(0);
+            let ns_of: Vec<usize> = match args.get(5) {
+                Some(a) if !a.is_empty() => a.split(',').filter_map(|x| x.parse().ok()).collect(),
+                _ => (0..n).collect(),
+            };
             for i in 0..n {
-                println!("--- f{i}.xsd\n{}", c11_render(n, mask, i, false));
+                println!("--- f{i}.xsd\n{}", c11_render_full(n, mask, i, false, layout, &ns_of));
             }
         }
         _ => {
